@@ -612,16 +612,42 @@ func controlConds(in ssa.Instruction) []ssa.Value {
 	var out []ssa.Value
 	b := in.Block()
 	for _, x := range in.Parent().Blocks {
-		if len(x.Instrs) == 0 {
+		if len(x.Instrs) == 0 || x == b || len(x.Succs) != 2 || x.Succs[0] == x.Succs[1] {
 			continue
 		}
 		iff, ok := x.Instrs[len(x.Instrs)-1].(*ssa.If)
 		if !ok {
 			continue
 		}
-		d0 := x.Succs[0].Dominates(b) && len(x.Succs[0].Preds) == 1
-		d1 := x.Succs[1].Dominates(b) && len(x.Succs[1].Preds) == 1
-		if d0 != d1 {
+		if !x.Dominates(b) {
+			// …or x is one of the test blocks of a compound condition: it sits between b's immediate
+			// dominator and b and does nothing but evaluate its test
+			id := b.Idom()
+			if id == nil || !id.Dominates(x) {
+				continue
+			}
+			pure := true
+			for _, i2 := range x.Instrs {
+				switch y := i2.(type) {
+				case *ssa.Store, *ssa.MapUpdate, *ssa.Defer, *ssa.Go, *ssa.Send:
+					pure = false
+				case *ssa.Call:
+					if cal := staticCallee(y); cal != nil && cal.Pkg != nil && strings.HasPrefix(cal.Pkg.Pkg.Path(), modPath) {
+						pure = false
+					}
+				}
+			}
+			if !pure {
+				continue
+			}
+		}
+		// b is control dependent on x when exactly one branch of x can still reach b (without
+		// coming back through x): also for the inner tests of `a && (b || c)`, whose target block
+		// has several predecessors
+		cut := map[*ssa.BasicBlock]bool{x: true}
+		r0 := x.Succs[0] == b || reachableBlocks(x.Succs[0], cut)[b]
+		r1 := x.Succs[1] == b || reachableBlocks(x.Succs[1], cut)[b]
+		if r0 != r1 {
 			out = append(out, iff.Cond)
 		}
 	}
